@@ -301,6 +301,16 @@ class StmtMixin(BuiltinMixin):
 
     def truth_of(self, st: State, ctx: Ctx, v: Any, line: int):
         """Truth value, calling __bool__/__len__ of (model or repo) objects that define them."""
+        if isinstance(v, Opt) and isinstance(v.val, Ref) and META[v.val.oid].kind == "object" and isinstance(META[v.val.oid].cls, ClassVal) \
+                and any(self.P.find_method(META[v.val.oid].cls.ci, nm) is not None for nm in ("__bool__", "__len__")):
+            # an optional object that defines its own truth value: None is false, otherwise ask the object
+            out = []
+            for s2, isn in self.fork(st, v.isnone):
+                if isn:
+                    out.append((s2, z3.BoolVal(False)))
+                else:
+                    out.extend(self.truth_of(s2, ctx, v.val, line))
+            return out
         if isinstance(v, Ref) and META[v.oid].kind == "object" and isinstance(META[v.oid].cls, ClassVal):
             ci = META[v.oid].cls.ci
             for nm in ("__bool__", "__len__"):
